@@ -312,6 +312,44 @@ func run(env *simrt.Env, sci interface{}) {
 			}
 			env.Probe("conn-outlives-listener")
 		}
+		// a burst after the listener closed: datagrams of strangers (refused now) mixed with
+		// datagrams for the still open connections, handed to the socket back to back so that
+		// a batch read returns them together
+		var open []*connRec
+		for _, c := range conns {
+			if c.closeInv == 0 {
+				open = append(open, c)
+			}
+		}
+		if len(open) > 0 && sc.DropP == 0 {
+			stranger, err := simnet.ListenUDP("udp", &net.UDPAddr{IP: net.IPv4(127, 0, 0, 1), Port: 7099})
+			if err == nil {
+				before := make([]int, len(open))
+				var msgs [][]byte
+				for i, c := range open {
+					before[i] = len(c.reads)
+					_, _ = stranger.WriteTo(payload(99, 700+i, 16, false), laddr)
+					m := payload(c.remoteIndex(), 800+c.idx, 24, false)
+					msgs = append(msgs, m)
+					_, _ = peers[c.remoteIndex()].WriteTo(m, laddr)
+				}
+				settle()
+				for i, c := range open {
+					found := false
+					for _, p := range c.reads[before[i]:] {
+						if bytes.Equal(p, msgs[i]) {
+							found = true
+						}
+					}
+					if c.closeInv == 0 && !found {
+						env.Fail("C12/accepted-conn-cannot-receive", "after the listener was closed, a burst of datagrams from a stranger and from the remote of the open connection #%d was sent; the connection did not receive its datagram (reader error: %v)", c.idx, c.readErr)
+						return
+					}
+				}
+				_ = stranger.Close()
+				env.Probe("burst-after-listener-close")
+			}
+		}
 	}
 
 	// ---------------- teardown: close everything (idempotently), then the socket must be gone
